@@ -1,6 +1,7 @@
 import SSEPyVerif.Driver.BytesD
 import SSEPyVerif.Driver.CryptoD
 import SSEPyVerif.Driver.PersistD
+import SSEPyVerif.Driver.ServerD
 
 open SSEPy SSEPy.Driver
 
@@ -8,6 +9,7 @@ structure DState where
   tables : Tables := {}
   parr : Option PArray.PArr := none
   pdict : Option PDict.PDict := none
+  srv : ServerIR.SrvD := {}
 
 def dispatch (st : DState) (line : String) : DState × String :=
   match (line.trimAscii.toString.splitOn " ") with
@@ -20,6 +22,7 @@ def dispatch (st : DState) (line : String) : DState × String :=
   | "ffx" :: rest => (st, ffxReq st.tables rest)
   | "lr" :: rest => (st, lrReq st.tables rest)
   | "pdict" :: rest => let (p, r) := pdictReq st.pdict rest; ({ st with pdict := p }, r)
+  | "srv" :: rest => let (p, r) := srvReq st.srv rest; ({ st with srv := p }, r)
   | "parr" :: rest => let (p, r) := parrReq st.parr rest; ({ st with parr := p }, r)
   | _ => (st, Proto.bad)
 
